@@ -72,11 +72,7 @@ Theorem c10_tls13_schedule_eq_spec :
      resumption_psk_model sha3 res_master nonce = Ok (resumption_psk (halg_of sha3) res_master nonce)) /\
   (forall sha3 chunks_ch1 hrr rest, is_hrr hrr = true ->
      reinit_chunk_model sha3 chunks_ch1 ++ concat (hrr :: rest) = transcript_bytes (halg_of sha3) (concat chunks_ch1 :: hrr :: rest)) /\
-  (forall th,
-     make_tbs_model s_tls13Encode_contextStrServer th = cv13_content true th /\
-     make_tbs_model s_tls13Decode_contextStrServer th = cv13_content true th /\
-     make_tbs_model s_tls13Encode_contextStrClient th = cv13_content false th /\
-     make_tbs_model s_tls13Decode_contextStrClient th = cv13_content false th).
+  (forall th, make_tbs_model l_cv_server th = cv13_content true th /\ make_tbs_model l_cv_client th = cv13_content false th).
 Proof.
   exact (conj hkdf_expand_label_model_eq (conj schedule_model_eq (conj rw_keys_model_eq (conj resumption_psk_model_eq
         (conj reinit_chunk_model_eq make_tbs_model_eq))))).
